@@ -305,7 +305,7 @@ def history(menu, D, first=-1):
 
 # ---- table level ---------------------------------------------------------------------------------
 T_OPS = ['addc C2', 'addc C0', 'delc C0', 'delc C2', 'delc 0', 'delc 1', 'delc 7', 'addi I0', 'addi I1', 'addi IF', 'deli I0',
-         'deli I1', 'deli 0', 'deli 3', 'addc N0', 'addi N1']
+         'deli I1', 'deli 0', 'deli 3', 'addc N0', 'addi N1', 'addi I2', 'addi IM', 'deli I2', 'deli 1']
 
 
 def table_history(D, first=-1):
@@ -319,8 +319,11 @@ def table_history(D, first=-1):
         t = Table('t', columns=[C0, C1])
         other = Table('o', columns=[Column('f', 'int')])
         F = other.columns[0]
-        u = {'C0': C0, 'C1': C1, 'C2': C2, 'I0': Index([C0]), 'I1': Index([C1, '`x`']), 'IF': Index([F]),
-             'N0': 'not a column', 'N1': 'not an index'}
+        # I2 has the same content as I0 (indexes are located by equality, like every delete_* of the container);
+        # IM mixes one of the table's own columns with a foreign one
+        u = {'C0': C0, 'C1': C1, 'C2': C2, 'I0': Index([C0]), 'I1': Index([C1, '`x`']), 'IF': Index([F]), 'I2': Index([C0]),
+             'IM': Index([C0, F]), 'N0': 'not a column', 'N1': 'not an index'}
+        same = lambda x, y: x is y or (any(x is u[k] for k in ('I0', 'I2')) and any(y is u[k] for k in ('I0', 'I2')))
         mcols = [C0, C1]
         midx = []
         for step in range(D):
@@ -337,7 +340,7 @@ def table_history(D, first=-1):
             elif verb == 'addi':
                 must = isinstance(o, str) or any(type(s).__name__ == 'Column' and not any(s is c for c in mcols) for s in o.subjects)
             else:
-                must = (o >= len(midx)) if isinstance(o, int) else not any(i is o for i in midx)
+                must = (o >= len(midx)) if isinstance(o, int) else not any(same(i, o) for i in midx)
             try:
                 if verb == 'addc':
                     t.add_column(o)
@@ -369,10 +372,10 @@ def table_history(D, first=-1):
                         return ''
                     midx.append(o)
                 else:
-                    victim = midx[o] if isinstance(o, int) else o
+                    victim = midx[o] if isinstance(o, int) else [i for i in midx if same(i, o)][0]
                     midx = [i for i in midx if i is not victim]
                     if ret is not victim:
-                        return 'delete_index returned another object'
+                        return 'delete_index did not return the index it removed'
             else:
                 if not must:
                     return 'a legal table operation was refused'
@@ -409,7 +412,7 @@ def table_history(D, first=-1):
                     return 'positional lookup disagrees with the column list'
             if t.get(len(mcols)) is not None:
                 return 'get past the end does not return the default'
-            for k in ('I0', 'I1', 'IF'):
+            for k in ('I0', 'I1', 'IF', 'I2', 'IM'):
                 ix = u[k]
                 inside = any(ix is x for x in midx)
                 if inside and ix.table is not t:
